@@ -7,6 +7,7 @@ From Coq Require Import List Arith NArith Bool Lia.
 Import ListNotations.
 Require Import MText MRound MkModel MkEval MkEvalP MkFmtP MkShapeP MkRoundP MkEqP MkNewlineP.
 Require Import ReqModel ReqSpec ReqTopP.
+Require SpecParse.
 Open Scope N_scope.
 Arguments N.eqb : simpl never.
 Arguments N.leb : simpl never.
@@ -30,3 +31,54 @@ Proof.
   - destruct W as (_ & _ & _ & _ & _ & _ & _ & Hm). rewrite E in Hm. etransitivity; [exact (Marker_trailing_newline mt m Hm) | exact HM].
 Qed.
 Print Assumptions requirement_marker_same.
+
+(* the content of requirement_marker_same without the conjuncts that follow from a = b by reflexivity: the requirement's marker IS
+   the stand-alone Marker of the text (also of the text followed by one newline), and its str reparses to the peeled structure *)
+Theorem requirement_marker_core sp mt m : rq_wf sp (Some m) -> rs_marker sp = Some mt -> lit_class m = LOk ->
+  exists r a,
+    Requirement (rq_render sp) = RqOk r /\ q_marker r = Some a /\ Marker mt = MOk a /\ Marker (mt ++ [10]) = MOk a /\
+    Marker (format_marker a) = MOk (peel_top a).
+Proof.
+  intros W E L. destruct (requirement_marker_same sp mt m W E L) as (r & a & b & HR & HQ & HM & -> & _ & _ & _ & _ & HF & _ & HN).
+  exists r, b. auto.
+Qed.
+Print Assumptions requirement_marker_core.
+
+(* ---- non-vacuity: " Foo.Bar [ a ,b]\t( >= 1.0 , ==2.* ) ;os.name=='a' or \"X_y\"==extra " satisfies every hypothesis ---- *)
+Definition rx_marker_text : list N :=
+  [111;115;46;110;97;109;101;61;61;39;97;39;32;111;114;32;34;88;95;121;34;61;61;101;120;116;114;97;32].
+Definition rx_pub (r0 : list N) (rs : list (list N)) : SpecParse.pub_sp :=
+  {| SpecParse.q_v := None; SpecParse.q_ep := None; SpecParse.q_rel0 := r0; SpecParse.q_rels := rs;
+     SpecParse.q_pre := None; SpecParse.q_post := None; SpecParse.q_dev := None |}.
+Definition rx_sp : rq_spelled :=
+  {| rs_w0 := [32]; rs_name := [70;111;111;46;66;97;114]; rs_w1 := [32];
+     rs_extras := Some ([32], [([], [97], [32]); ([], [98], [])]);
+     rs_w2 := [9];
+     rs_body := SB_clauses (Some [32])
+       [ ([], {| c_op := SpecParse.OGe; c_ws := [32]; c_body := SpecParse.BPub (rx_pub [49] [[48]]) None |}, [32]);
+         ([32], {| c_op := SpecParse.OEq; c_ws := []; c_body := SpecParse.BWild None None [50] [] |}, [32]) ];
+     rs_w3 := [32]; rs_marker := Some rx_marker_text |}.
+Example requirement_marker_hypotheses :
+  exists m, rq_wf rx_sp (Some m) /\ rs_marker rx_sp = Some rx_marker_text /\ lit_class m = LOk.
+Proof.
+  eexists. split; [|split].
+  - unfold rq_wf, rx_sp. cbn [rs_w0 rs_name rs_w1 rs_extras rs_w2 rs_body rs_w3 rs_marker rq_wf_body].
+    repeat split; try reflexivity; try discriminate;
+      repeat (constructor; try (repeat split; try reflexivity; try discriminate)).
+  - reflexivity.
+  - reflexivity.
+Qed.
+(* computed on that instance: the requirement's marker equals the Marker of the text and of text + "\n"; and - NOT a theorem, the
+   requirement model has no lemma for it - Requirement(text + "\n") gives the same requirement (END = "$" there too) *)
+Definition rx_check : bool :=
+  match Requirement (rq_render rx_sp), Requirement (rq_render rx_sp ++ [10]), Marker rx_marker_text, Marker (rx_marker_text ++ [10]) with
+  | RqOk r, RqOk r', MOk a, MOk a' =>
+      match q_marker r, q_marker r' with
+      | Some x, Some x' => marker_eq x a && marker_eq x' a && marker_eq a a' && str_eqb (req_str r) (req_str r')
+                           && negb (str_eqb (format_marker a) rx_marker_text)
+      | _, _ => false
+      end
+  | _, _, _, _ => false
+  end.
+Example rx_nonvacuous : rx_check = true.
+Proof. vm_compute. reflexivity. Qed.
